@@ -10,7 +10,7 @@ UNIT = dict(
     fns={
         "CacheEntry::new": dict(file="store"),
         "CacheEntry::is_expired": dict(file="store"),
-        "CacheStore::new": dict(file="store"),
+        "CacheStore::new": dict(file="store", rules=[("R10f", -1)]),
         "CacheStore::get": dict(file="store", rules=[
             ("addarg", ["is_expired"], "clk", 1),
             ("inject", None, "start", "proof { tr.store_gets = tr.store_gets.push(key_id(*key)); }"),
